@@ -64,6 +64,7 @@ class Connection:
         # state of a read interrupted by a cancellation (see _reader_async / reader_async)
         self._partial_read: tuple[bytearray, int] | None = None
         self._pending_recv: asyncio.Future[int] | None = None
+        self._recv_awaited: bool = False
         self._pending_header: memoryview | None = None
         self.defensive: bool = getenv().debug.defensive
 
@@ -101,7 +102,10 @@ class Connection:
 
     def close(self) -> None:
         if self._pending_recv is not None:
-            self._pending_recv.cancel()
+            # a receive left behind by a cancelled read is dropped; one a coroutine is waiting on
+            # is left alone (cancelling it would cancel that coroutine's whole task)
+            if not self._recv_awaited:
+                self._pending_recv.cancel()
             self._pending_recv = None
         self._partial_read = None
         self._pending_header = None
@@ -266,10 +270,13 @@ class Connection:
                 if self._pending_recv is None:
                     self._pending_recv = asyncio.ensure_future(loop.sock_recv_into(self.io, view[offset:]))
                 receive = self._pending_recv
+                self._recv_awaited = True
                 try:
                     nbytes = await asyncio.shield(receive)
                 except asyncio.CancelledError:
-                    if receive.cancelled():
+                    if self.io is None or receive.cancelled():
+                        # closed meanwhile: nothing to resume
+                        receive.cancel()
                         self._pending_recv = None
                     else:
                         self._partial_read = (buffer, offset)
@@ -277,6 +284,8 @@ class Connection:
                 except BaseException:
                     self._pending_recv = None
                     raise
+                finally:
+                    self._recv_awaited = False
                 self._pending_recv = None
 
                 if not nbytes:
